@@ -10,21 +10,21 @@ NOTE = ("Trusted: rustc's MIR construction, the fact driver's place/field-name r
         "the analysed functions); behaviour over values/histories that is not a function of code shape is explicitly not decided (see DESIGN.md).")
 
 CLAIMED = {
-    "C01": ("§4 C01", "Necessary conditions only: dedup-before-deliver cut-set in handle_data; who-may-write the receive point/tags; association set-up must not clobber a live association and answers a retransmitted INIT with the same values; serial-number-arithmetic lint and a units rule keeping own-TSN and peer-TSN values apart; chunks leave the reorder buffer only by serial key; gap ack offsets applied to the SACK's own cumulative ack; the T3 sweep marks, re-times or abandons every outstanding chunk; FORWARD-TSN drains what became in order; the PR-SCTP ack point advances only over abandoned chunks; SSN/fragment lock discipline, and nothing can suspend or fail between drawing a stream sequence number and queueing its fragments. Delivery over arbitrary loss/dup/reorder histories and bounded-time completion are not decided."),
+    "C01": ("§4 C01", "Necessary conditions only: dedup-before-deliver cut-set in handle_data; who-may-write the receive point/tags; association set-up must not clobber a live association and answers a retransmitted INIT with the same values; serial-number-arithmetic lint and a units rule keeping own-TSN and peer-TSN values apart; chunks leave the reorder buffer only by serial key; gap ack offsets applied to the SACK's own cumulative ack; the T3 sweep marks, re-times or abandons every outstanding chunk; FORWARD-TSN drains what became in order; the PR-SCTP ack point advances only over abandoned chunks; SSN/fragment lock discipline, nothing can suspend or fail between drawing a stream sequence number and queueing its fragments; INIT-ACK is taken in COOKIE-WAIT only; the PR-SCTP ack point is initialised once and otherwise moves only over acknowledged or abandoned chunks; a FORWARD-TSN the peer has not acknowledged is re-armed by every SACK that is behind it and keeps its stream/SSN pairs. Delivery over arbitrary loss/dup/reorder histories and bounded-time completion are not decided."),
     "C02": ("§4 C02", "Assume/guarantee chain over the DTLS handshake context (Connected => Finished verified => keys after verified key exchange => signature by the fingerprinted certificate => fingerprint from remote SDP), each link a cut-set/who-may rule over all CFG paths; the ServerKeyExchange signature input is the RFC 4492 5.4 byte sequence in verifier and signer; application data is handed up only from records authenticated under the negotiated keys; the server-role gap is reported as a known finding."),
     "C03": ("§4 C03", "Cut-set rules: no upward effect from an unauthenticated record (application data, alerts and, once keys exist, handshake messages); only the sealed buffer is sent, only under Connected, bounded record size; every AEAD seal consumes a fresh sequence number (atomic RMW or counter advanced on every path), the counter being chosen by the hand-over to the write epoch, not by the connection state; the AEAD additional data is built from the record header fields as received (dataflow)."),
     "C05": ("§4 C05", "Cut-set rules: replay/rollover state (incl. writes through &mut borrows and callees), Ok returns and per-SSRC table changes (transitively through session helpers) in the SRTP receive path are reachable only past an authentication-success edge; the SRTCP AEAD input contains the received header, body and index word unmodified; the HMAC tag comparator pairs every byte of one operand with the same byte of the other over their whole (equal) length; transport drops on unprotect error."),
     "C06": ("§4 C06", "Cut-set: every ICE state effect of the inbound Binding-request handlers is cut by the verification-succeeded edge (USERNAME names the local ufrag, MESSAGE-INTEGRITY valid under the local password) or by transport_mode != WebRtc (the inbound-TCP nomination helper by assume/guarantee: every call site cut by verification, not-WebRtc or membership of the stream's peer in the set that only the authenticated path fills); responses are dispatched only on the Some edge of pending_transactions.remove(id) and a binding check succeeds only past id/method/class tests; the mux demultiplexer routes a request that names a ufrag by that ufrag only; the set of message fields the unauthenticated request handlers read is frozen (a new attacker-chosen input to the ICE state is reported); the MESSAGE-INTEGRITY comparison covers all 20 bytes of both operands; no attribute behind MESSAGE-INTEGRITY is interpreted."),
     "C07": ("§4 C07", "Site census with proof-or-table over the network-facing entry points and their whole crate call closure (about 1540 bodies, 1276 potential panic sites): every bounds/overflow/div-by-zero Assert, every call of a modelled panicking std/bytes API and every call of any std/bytes function whose documentation has a '# Panics' section is either PROVEN by a forward length analysis (difference constraints over integer locals and buffer lengths with cursor accounting, slicing, branch refinement, iterator ranges, range-argument ordering and callee preconditions checked at every call site) or listed in a reviewed table with its reason. Every loop in scope makes progress or suspends on every trip (lower bounds from the same analysis, decoder consumption summaries). Every explicit allocation request is sized by a constant, a <= 16-bit value, something linear in existing buffer lengths, or a guarded value. Decides panic-freedom of those sites, per-trip progress of those loops and boundedness of those allocation requests relative to the library model; growth of long-lived tables across packets is not decided."),
     "C09": ("§4 C09", "Table agreement: (SDP type, required state, next state) triples extracted from the CFG of the four JSEP entry points equal the JSEP table; who-may-send on the signaling state; no Ok return of an entry point bypasses the state dispatch; no-effect-before-failure: no feasible CFG path (SDP type and signaling state tracked as correlated predicates, infallible callees pruned by summary) from an effect to an error return. Errors that only propagate a transport start-up failure are listed as not decided."),
-    "C11": ("§4 C11", "Necessary conditions of RFC 6347 4.2.4 retransmission: every handshake record sent flows into the stored flight, the stored flight is only ever replaced (never consumed), the retransmit tick re-sends it while Handshaking on every path (no other early return) and the deadline ends in Failed, a duplicate client Finished re-sends the final flight in the server role, a duplicated HelloVerifyRequest is not mistaken for the server's restarted flight, epoch-0 records are never rejected by the record layer, the retransmission tick always re-sends and inbound traffic never resets its interval, fragments are placed by offset and a first fragment always restarts reassembly; encoder and decoder of record / handshake headers agree on byte positions; client and server copies of the key derivation feed identical PRF calls. Convergence over loss histories and key agreement are not decided."),
-    "C12": ("§4 C12", "Open announced only by the call performing Connecting->Open, Close only by the call performing ->Closed, Closed terminal; fragments under one queue guard with B/E flags on the first/last-fragment edges; receiver reassembly discipline (clear on B, append only to a message in progress, deliver the whole buffer on E only, ordered messages through the SSN queue released by next_ssn only); FORWARD-TSN discards the message in progress; only chunks with a partial-reliability policy of their own are abandoned; the DCEP parser is fed complete messages only; stream id picked and channel registered under one lock; id parity from a defaulted DTLS role (known finding); RE-CONFIG parameter values exclude padding; DCEP type table/PPIDs equal RFC 8832 and OPEN marshal/unmarshal agree on byte positions; FORWARD-TSN serial comparison. No-merge/no-split over arbitrary loss histories is not decided."),
+    "C11": ("§4 C11", "Necessary conditions of RFC 6347 4.2.4 retransmission: every handshake record sent flows into the stored flight, the stored flight is only ever replaced (never consumed), the retransmit tick re-sends it while Handshaking on every path (no other early return) and the deadline ends in Failed, a duplicate client Finished re-sends the final flight in the server role, a duplicated HelloVerifyRequest is not mistaken for the server's restarted flight, epoch-0 records are never rejected by the record layer, the retransmission tick always re-sends and inbound traffic never resets its interval, in post-HVR mode only a ServerHello re-synchronises the receive sequence, fragments are placed by offset and a first fragment always restarts reassembly; encoder and decoder of record / handshake headers agree on byte positions; client and server copies of the key derivation feed identical PRF calls. Convergence over loss histories and key agreement are not decided."),
+    "C12": ("§4 C12", "Open announced only by the call performing Connecting->Open, Close only by the call performing ->Closed, Closed terminal; fragments under one queue guard with B/E flags on the first/last-fragment edges; receiver reassembly discipline (clear on B, append only to a message in progress, deliver the whole buffer on E only, ordered messages through the SSN queue released by next_ssn only); FORWARD-TSN discards the message in progress; only chunks with a partial-reliability policy of their own are abandoned; the DCEP parser is fed complete messages only; stream id picked and channel registered under one lock; id parity from a defaulted DTLS role (known finding); RE-CONFIG parameter values exclude padding; DCEP type table/PPIDs equal RFC 8832 and OPEN marshal/unmarshal agree on byte positions; FORWARD-TSN serial comparison; a negotiated channel created after the association is up is announced Open (after registration). No-merge/no-split over arbitrary loss histories is not decided."),
     "C13": ("§4 C13", "Single wire exit with CRC32c over the finished packet stored little-endian at bytes 8..12; evaluated size constants, the packet-length accumulator and their use in batching/fragmentation; TSNs only from next_tsn.fetch_add(1) under the sent_queue lock; verification-tag argument flow with a 3-entry RFC exception table; dequeue loop bounded by a budget derived from rwnd/cwnd/flight read after the retransmission phase (no stale snapshot); no map-order dependent access to the TSN-keyed sent queue outside a reviewed list; a gap-acked chunk cannot be retransmitted; receive-window credit returned on every removal from the reorder buffer; SACK handling never relates own-space and peer-space TSNs (units rule incl. wire-read values); the peer's advertised window enters the send budget unmodified. Window arithmetic correctness and quiescence are not decided."),
     "C14": ("§4 C14", "Negative property over every path = cut-set: every RTP/RTCP egress is cut by protect(Ok)-on-the-sent-buffer or the sender's srtp_required==false; every ingress delivery by unprotect(Ok) or srtp_required==false; who-may-call IceConn egress; srtp_required wiring at construction; protect / unprotect apply the cipher for every profile except the null cipher (the profile predicates are evaluated per profile)."),
     "C15": ("§4 C15", "Table and layout agreement: RTCP (packet type, FMT) pairs written per variant equal the RFC numbers and the parser dispatch is their inverse; RTP version, header bit masks and header-extension profile ids; parser and marshaller agree on the byte positions of every fixed-offset RTP/RTCP field (27 fields); SDES chunks end with the end-of-list octet; the NACK parser reads all 16 BLP bits; one-byte header-extension packing, RTX wrap/unwrap positions, sign extension of the 24-bit loss counter; element-fits guards of the walkers accept an element ending exactly at the buffer end; NACK code never walks or orders sequence numbers with non-wrapping u16 ranges / comparisons; reserved one-byte extension IDs are applied in the one-byte form only. Inverse laws over all packets are value-level and not decided."),
     "C16": ("§4 C16", "Table agreement, ordering and provenance: STUN method/class bit tables and attribute type codes of encoder and decoder agree with each other and with RFC 5389/5766/IANA; magic cookie / FINGERPRINT constants; padding on every append path; MESSAGE-INTEGRITY before FINGERPRINT, each computed over (current length - 20) + 24 / + 8; the cached TURN long-term key is recomputed after every change of username/realm/password; candidate and pair priority formulas have the RFC 8445/6544 shape and constants; attribute walkers accept a last attribute that ends exactly at the message end; hmac_sha1 keys the MAC with the whole key through the variable-length constructor; text attributes are written whole. XOR algebra, HMAC/CRC values and candidate round trips are not decided."),
-    "C17": ("§4 C17", "Spawn census (every JoinHandle flows into track_task / LoopsGuard / the caller, or the detached task is in a reviewed table with a machine-checked termination witness), close-path completeness derived from the transport-typed fields of PeerConnectionInner, cleanup guard armed before the first await and alive at every later one, IceTransport::stop releases every socket/listener/TURN/registration holder on every path, connection tasks hold the PeerConnection only weakly while they wait in a loop, close and the run-loop cleanup guard wake parked senders and waiters re-test Closed, the DTLS handshake loop never ends without publishing a terminal state, the state close() tests as its 'already closed' flag is set to Closed by the teardown only, close publishes gathering = Complete unconditionally, PeerConnection::recv() watches the closed state next to its event channel, close() ends every registered data channel with Close sent only by the call that made the transition, the monitoring task publishes a state when the transport loops end on their own, and close() itself aborts the tracked tasks and gives every connection-owned detached loop of the table its stop signal. Bounded time, descriptor counts and racing terminating events are not decided."),
-    "C18": ("§4 C18", "Who-may-write the latch state plus cut-set rules for stickiness and legitimacy (each destination write cut separately by unlatched / expected-SSRC / not-RTCP / latching-enabled) for all packet histories; a reset discards every undecided probation observation; the latch is set only when the destination provably equals the selected source (stale-snapshot dataflow), and it IS set on every path that accepts a packet with no probation pending or names a probation winner, and an exhausted probation window always names one. Rule precedence among candidates is not decided."),
+    "C17": ("§4 C17", "Spawn census (every JoinHandle flows into track_task / LoopsGuard / the caller, or the detached task is in a reviewed table with a machine-checked termination witness), close-path completeness derived from the transport-typed fields of PeerConnectionInner, cleanup guard armed before the first await and alive at every later one, IceTransport::stop releases every socket/listener/TURN/registration holder on every path, connection tasks hold the PeerConnection only weakly while they wait in a loop, close and the run-loop cleanup guard wake parked senders and waiters re-test Closed, the DTLS handshake loop never ends without publishing a terminal state, the state close() tests as its 'already closed' flag is set to Closed by the teardown only, close publishes gathering = Complete unconditionally, PeerConnection::recv() watches the closed state next to its event channel, close() ends every registered data channel with Close sent only by the call that made the transition, every chunk type by which the peer ends the SCTP association (ABORT, SHUTDOWN ACK, SHUTDOWN COMPLETE) closes ours with a reason, the monitoring task publishes a state when the transport loops end on their own, and close() itself aborts the tracked tasks and gives every connection-owned detached loop of the table its stop signal. Bounded time, descriptor counts and racing terminating events are not decided."),
+    "C18": ("§4 C18", "Who-may-write the latch state plus cut-set rules for stickiness and legitimacy (each destination write cut separately by unlatched / expected-SSRC / not-RTCP / latching-enabled) for all packet histories; a reset discards every undecided probation observation; the latch is set only when the destination provably equals the selected source (stale-snapshot dataflow), and it IS set on every path that accepts a packet with no probation pending or names a probation winner, an exhausted probation window always names one, and a newly known expected SSRC discards the candidates recorded under another one. Rule precedence among candidates is not decided."),
     "C19": ("§4 C19", "State discipline of RewriteBridge::rewrite_packet that stream continuity rests on (stable per-source output SSRC keyed by the source SSRC read before the rewrite, sequence counter advanced by exactly one per packet, timestamp offset changed only at discontinuities), single delivery in RtpTransport::receive, demux stages tried in the order RID, MID, SSRC, unique PT, provisional with fall-through, payload-type lists replaced on re-registration, route pruning removes closed receivers only. Wraparound arithmetic is not decided."),
     "C20": ("§4 C20", "Ownership/lock discipline of the SPSC ring: every push under one producer lock and every pop under one consumer lock that is the same instance for all handle types sharing the ring (guard-liveness dataflow), atomic ordering table, occupancy decided on the free-running counters only, Send/Sync bounds, sender accounting, end-of-stream only after a closed flag read BEFORE the emptiness observation, waiter registered before the last closed check."),
 }
